@@ -28,7 +28,7 @@ SIG = {"D1": "create_linked_view:job_ids-empty:links-an-unselected-job",
 ALL5 = ["auto", "id", "tree", "flat", "const"]
 
 
-def universes(quick):
+def universes(quick, d5fixed=True):
     hom = [{"a": 1, "b": "x y"}, {"a": 2, "b": "x y"}, {"a": 1, "b": "ü.1"}, {"a": 2, "b": "ü.1"}]
     het = [{"a": 1}, {"a": 1, "b": 2}, {"a": 2}, {"b": 2}]
     nested = [{"n": {"x": 1}, "a": 1}, {"n": {"x": 2}, "a": 1}, {"n": {"x": 1, "y": "v.1"}, "a": 1}, {"n": 7, "a": 2}]
@@ -43,13 +43,14 @@ def universes(quick):
         nested = nested + [{"n": {"x": 2, "y": "v.1"}, "a": 2}]
         collide = collide + [{"x/y": 1, "a": 1.5}]
         jobkey = [{"job": 1}, {"job": 2}, {"a": "job", "job": 1}]
-        jobhet = jobhet + [{"a": 1, "job": {"x": 3}, "job 2": 9}]
+        if d5fixed:      # (while DEVIATION D5 is open every stale link and every escape multiplies the states: 10^6 edges with 5 jobs)
+            jobhet = jobhet + [{"a": 1, "job": {"x": 3}, "job 2": 9}]
     us = [Universe("hom", hom, ["auto", "tree", "flat"] if quick else ["auto", "id", "tree", "flat"]), Universe("het", het, ["auto", "id", "tree"]),
           Universe("nested", nested, ["auto", "flat", "const"]),
           Universe("collide", collide, ["auto", "id"], orders=["asc", "desc"]),
           Universe("jobkey", jobkey, ["auto"], speckey="job"),
           Universe("jobhet", jobhet, ["auto"], orders=["asc", "desc"])]
-    us[-1].max_inside = 2 if quick else 4      # (only matters while DEVIATION D5 is open: at most one / two escapes are followed up)
+    us[-1].max_inside = 2 if quick else 8      # (only matters while DEVIATION D5 is open: at most one / four escapes are followed up)
     for u in us:      # deviations reachable in the universe, in the order in which they are switched off for TLC's counterexamples
         u.devs = {"collide": ["D1", "D2"], "jobkey": ["D1", "D3"]}.get(u.name, ["D1"])
         if u.name == "jobhet":
@@ -264,7 +265,7 @@ def _run_walk(uname, walk, root, wid, stop_on_problem=True):
                     matched = ae
                     break
             here = "universe %s, after %s: %s" % (uname, [_describe(uni, g.edges[i]) for i in walk[:n]], _describe(uni, e))
-            rp = {"universe": uname, "quick": _G["__quick__"], "steps": _script(uni, g, walk[:n + 1])}
+            rp = {"universe": uname, "quick": _G["__quick__"], "d5": _G.get("__d5__", True), "steps": _script(uni, g, walk[:n + 1])}
             if e["op"] != "view":
                 if matched is None:
                     raise core.MachineryError("%s: workspace operation does not behave as modelled (real ws %s, result %s %s)" % (here, sorted(ws_real), res, exc))
@@ -415,7 +416,7 @@ def _sim_replay(item):
             conform = res_matches(res, exc, last["res"]) and sb.ws() == st["ws"] and (_strip(links), dirs) == (ml, md) and not other \
                 and ins == uni.inside_of((x["j"], x["p"]) for x in st["inside"])
             here = "universe sim (random history), step %d of %s" % (len(script), [s["op"] for s in script])
-            rp = {"universe": "sim", "quick": _G["__quick__"], "steps": list(script)}
+            rp = {"universe": "sim", "quick": _G["__quick__"], "d5": _G.get("__d5__", True), "steps": list(script)}
             if last["op"] != "view":
                 if not conform:
                     raise core.MachineryError("%s: workspace operation does not behave as modelled" % here)
@@ -457,7 +458,8 @@ def run(ctx):
                        "'a_{a}/{{auto:_}}', 'all'" % (4 if ctx.quick else 5, "3 path specs" if ctx.quick else "5 path specs"))
     flags = _probe(ctx.work)
     ctx.cov["deviation_flags_probed"] = flags
-    unis = universes(ctx.quick)
+    unis = universes(ctx.quick, flags["FixedD5"])
+    _G["__d5__"] = flags["FixedD5"]
     if os.environ.get("VERIF_C17_ONLY"):          # development aid: restrict the run to some universes
         unis = [u for u in unis if u.name in os.environ["VERIF_C17_ONLY"].split(",")]
     if not flags["FixedD4"]:
@@ -609,7 +611,7 @@ def _selftest(ctx, uni):
 
 
 def replay(ctx, data):
-    uni = {u.name: u for u in universes(data.get("quick", True)) + [sim_universe()]}[data["universe"]]
+    uni = {u.name: u for u in universes(data.get("quick", True), data.get("d5", True)) + [sim_universe()]}[data["universe"]]
     sb = Sandbox(os.path.join(ctx.work, "replay"), uni)
     print("state points:", uni.sp_of)
     res, exc, pre = "ok", None, ({}, set())
